@@ -17,7 +17,14 @@ import StorageModel.C16.Lemmas
   deleted (with the context `fkDeleteCascadeConstraint` hands on), `DeleteWhere`, create / update /
   delete through the child store (a child create over an existing parent re-runs `CreateBaseValues`
   on the parent's bucket), link clean-up, nested `Db.Update` with a system context (= the
-  per-operation context flag).  `Vals` is the complete in-memory entity; every theorem quantifies
+  per-operation context flag).  **Where the constraint is registered — on S, on the child store C
+  only, on both — is a parameter of the schema (`St.reg`)**: S's constraints run on every operation
+  that touches the entity, C's only on operations that go through C's indexing context (C.Create /
+  C.Update, and S.Update / S.DeleteById of an entity WITH child data, via `HandleUpdate` / the child
+  store's `processDeleteConstraints`); the theorems are stated for every registration about the
+  entities it protects (`Ent.protectedBy`) and read off per registration
+  (`…_parent_registration`, `…_child_registration`: with the constraint on C only the property can be
+  claimed for the entities that have child data).  `Vals` is the complete in-memory entity; every theorem quantifies
   over all of it.  A history is a list of `Db.Update` bodies, each with a mode: the body aborts at
   the first error, or the caller ignores the errors that were raised before anything was written
   (and commits anyway).
@@ -49,23 +56,43 @@ theorem mem_matching {s : St K N T} {id : K} {e : Ent K N T} {q : Query K N} (hg
   exact List.mem_filter.mpr ⟨Map.get_some_mem hg, hq⟩
 
 theorem any_refused_of_mem {s : St K N T} {ids : List K} {id : K} {e : Ent K N T} (hm : id ∈ ids)
-    (hg : s.ents.get id = some e) (hs : e.isSystem = true) : ids.any (fun y => refused s y false) = true := by
+    (hg : s.ents.get id = some e) (hp : e.protectedBy s.reg = true) : ids.any (fun y => refused s y false) = true := by
   rw [List.any_eq_true]
-  exact ⟨id, hm, by rw [refused_of_get hg, hs]; rfl⟩
+  exact ⟨id, hm, by rw [refused_of_get hg, hp]; rfl⟩
+
+/-- the bucket a create through the child store writes is looked at by a constraint on either store -/
+theorem protectedBy_mkEnt_child {reg : Reg} (hr : (reg.onS || reg.onC) = true) (v : Vals K N T) (l : N) (e : Ent K N T)
+    (hs : (v.flag || e.isSystem) = true) : (mkEnt v (some l) e).protectedBy reg = true := by
+  rw [protectedBy_eq, guarded_mkEnt_child, mkEnt_isSystem, hr, hs]; rfl
+
+theorem protectedBy_split {reg : Reg} {e : Ent K N T} (hp : e.protectedBy reg = true) :
+    guarded reg e = true ∧ e.isSystem = true := by
+  rw [protectedBy_eq] at hp
+  cases h1 : guarded reg e <;> cases h2 : e.isSystem <;> simp_all
+
+/-- extending a protected entity through the child store gives a protected entity -/
+theorem protectedBy_mkEnt_child_of {reg : Reg} {e : Ent K N T} (hp : e.protectedBy reg = true) (v : Vals K N T) (l : N) :
+    (mkEnt v (some l) e).protectedBy reg = true :=
+  protectedBy_mkEnt_child (guarded_some_reg (protectedBy_split hp).1) v l e (by rw [(protectedBy_split hp).2]; simp)
 
 /-- **create / update / delete of a system entity from an ordinary context fail** — directly,
     through the child store, through the cascade of a foreign key and through a delete by query;
-    the refused update and delete do not even touch the uncommitted state. -/
+    the refused update and delete do not even touch the uncommitted state.  Stated for ANY
+    registration of the constraint (`s.reg`): about the entities that registration looks at
+    (`Ent.protectedBy`: system entities, and with the constraint on the child store only those of
+    them that have child data); the two theorems below read it off per registration. -/
 theorem system_needs_system_ctx (s : St K N T) (id : K) :
-    -- create with the system flag (id fresh, not blank), whatever else the entity carries, through
-    -- S or through the child store
+    -- create with the system flag (id fresh, not blank), whatever else the entity carries: through
+    -- S when the constraint is on S, through the child store when it is on either store
     (∀ v : Vals K N T, v.flag = true → s.ents.get id = none →
-        ((step s (.create false id false v)).err = some .sysCreate ∨
-          (step s (.create false id false v)).err = some .noOwner) ∧
-        ∀ lvl, ((step s (.ccreate false id false v lvl)).err = some .sysCreate ∨
-          (step s (.ccreate false id false v lvl)).err = some .noOwner)) ∧
-    -- every operation that reaches an entity whose STORED flag is set
-    (∀ e, s.ents.get id = some e → e.isSystem = true →
+        (s.reg.onS = true →
+          ((step s (.create false id false v)).err = some .sysCreate ∨
+            (step s (.create false id false v)).err = some .noOwner)) ∧
+        ((s.reg.onS || s.reg.onC) = true →
+          ∀ lvl, ((step s (.ccreate false id false v lvl)).err = some .sysCreate ∨
+            (step s (.ccreate false id false v lvl)).err = some .noOwner))) ∧
+    -- every operation that reaches a protected entity (STORED flag set, a registered constraint looks at it)
+    (∀ e, s.ents.get id = some e → e.protectedBy s.reg = true →
         -- update, whatever the update carries, through S …
         (∀ (v : Vals K N T) sn st so, step s (.update false id v sn st so) = { st := s, err := some .sysUpdate }) ∧
         -- … or through the child store (not found when there is no child data)
@@ -82,32 +109,93 @@ theorem system_needs_system_ctx (s : St K N T) (id : K) :
   refine ⟨?_, ?_⟩
   · intro v hv hg
     refine ⟨?_, ?_⟩
-    · rw [step_create_new hg, createOn_eq, hv]
+    · intro hS
+      have hp : (mkEnt v none (blankEnt v.name : Ent K N T)).protectedBy s.reg = true := by
+        rw [protectedBy_eq, guarded_mkEnt_fresh, mkEnt_isSystem, hS, hv]; rfl
+      rw [step_create_new hg, createOn_eq, hp]
       cases ownerOk s v.owner <;> simp
-    · intro lvl
-      rw [step_ccreate_new hg, createOn_eq, hv]
+    · intro hr lvl
+      have hp := protectedBy_mkEnt_child hr v lvl (blankEnt v.name : Ent K N T) (by rw [hv]; rfl)
+      rw [step_ccreate_new hg, createOn_eq, hp]
       cases ownerOk s v.owner <;> simp
-  · intro e hg hs
+  · intro e hg hp
     refine ⟨?_, ?_, ?_, ?_, ?_, ?_, ?_⟩
-    · intro v sn st so; rw [step_update_found hg, updateOn_eq hg, hs]; simp
+    · intro v sn st so; rw [step_update_found hg, updateOn_eq hg, hp]; simp
     · intro v sn st so sl lvl
       rw [step_cupdate_found hg]
       cases e.level.isNone with
       | true => exact ⟨.notFound, by simp⟩
-      | false => rw [updateOn_eq hg, hs]; exact ⟨.sysUpdate, by simp⟩
-    · rw [step_delete, deleteOne_found hg, hs]; simp
-    · rw [step_cdelete, deleteOne_found hg, hs]; simp
+      | false => rw [updateOn_eq hg, hp]; exact ⟨.sysUpdate, by simp⟩
+    · rw [step_delete, deleteOne_found hg, hp]; simp
+    · rw [step_cdelete, deleteOne_found hg, hp]; simp
     · intro v lvl
       rw [step_ccreate_found hg]
       cases e.level.isSome with
       | true => simp
       | false =>
-        rw [createOn_eq, hs]
+        have hgd : guarded s.reg e = true := by
+          rw [protectedBy_eq] at hp; cases h : guarded s.reg e <;> simp_all
+        have hsy : e.isSystem = true := by
+          rw [protectedBy_eq] at hp; cases h : e.isSystem <;> simp_all
+        have hp' := protectedBy_mkEnt_child (guarded_some_reg hgd) v lvl e (by rw [hsy]; simp)
+        rw [createOn_eq, hp']
         cases ownerOk s v.owner <;> simp
     · intro o ho hm
-      rw [step_odelete_found hm, any_refused_of_mem (mem_refs hg ho) hg hs]; simp
+      rw [step_odelete_found hm, any_refused_of_mem (mem_refs hg ho) hg hp]; simp
     · intro q hq
-      rw [step_deleteWhere, any_refused_of_mem (mem_matching hg hq) hg hs]; simp
+      rw [step_deleteWhere, any_refused_of_mem (mem_matching hg hq) hg hp]; simp
+
+/-- **constraint registered on the parent store S** (alone or together with one on C): every system
+    entity is protected, with or without child data -/
+theorem system_needs_system_ctx_parent_registration (s : St K N T) (hS : s.reg.onS = true) (id : K) (e : Ent K N T)
+    (hg : s.ents.get id = some e) (hs : e.isSystem = true) :
+    (∀ (v : Vals K N T) sn st so, step s (.update false id v sn st so) = { st := s, err := some .sysUpdate }) ∧
+    (∀ (v : Vals K N T) sn st so sl lvl, ∃ err, step s (.cupdate false id v sn st so sl lvl) = { st := s, err := some err }) ∧
+    step s (.delete false id) = { st := s, err := some .sysDelete } ∧
+    step s (.cdelete false id) = { st := s, err := some .sysDelete } ∧
+    (∀ (v : Vals K N T) lvl, (step s (.ccreate false id false v lvl)).err ≠ none) ∧
+    (∀ o, e.owner = some o → o ∈ s.owners → (step s (.odelete false o)).err = some .viaSysDelete) ∧
+    (∀ q : Query K N, q.eval e = true → (step s (.deleteWhere false q)).err = some .viaSysDelete) :=
+  (system_needs_system_ctx s id).2 e hg (protectedBy_of (guarded_onS hS e) hs)
+
+/-- **constraint registered on the child store C only (or also)**: the property can be claimed for
+    the system entities that HAVE child data — for them update and delete through EITHER store
+    (operations through S reach C's constraints through `HandleUpdate` / the child store's
+    `processDeleteConstraints`), the cascade and the delete by query are refused from an ordinary
+    context, and so is every create through the child store that carries the flag or extends a
+    system entity.  A system entity WITHOUT child data is beyond the reach of a constraint on C:
+    operations on it through S run S's constraints only (examples below: they succeed). -/
+theorem system_needs_system_ctx_child_registration (s : St K N T) (hC : s.reg.onC = true) (id : K) :
+    (∀ e, s.ents.get id = some e → e.isSystem = true → e.level.isSome = true →
+      (∀ (v : Vals K N T) sn st so, step s (.update false id v sn st so) = { st := s, err := some .sysUpdate }) ∧
+      (∀ (v : Vals K N T) sn st so sl lvl, step s (.cupdate false id v sn st so sl lvl) = { st := s, err := some .sysUpdate }) ∧
+      step s (.delete false id) = { st := s, err := some .sysDelete } ∧
+      step s (.cdelete false id) = { st := s, err := some .sysDelete } ∧
+      (∀ o, e.owner = some o → o ∈ s.owners → (step s (.odelete false o)).err = some .viaSysDelete) ∧
+      (∀ q : Query K N, q.eval e = true → (step s (.deleteWhere false q)).err = some .viaSysDelete)) ∧
+    -- creates through the child store: a fresh entity carrying the flag, and any extension of a
+    -- system entity that has no child data yet (it gets child data by this very create)
+    (∀ (v : Vals K N T) lvl, s.ents.get id = none → v.flag = true → (step s (.ccreate false id false v lvl)).err ≠ none) ∧
+    (∀ e (v : Vals K N T) lvl, s.ents.get id = some e → (v.flag || e.isSystem) = true →
+      (step s (.ccreate false id false v lvl)).err ≠ none) := by
+  have hr : (s.reg.onS || s.reg.onC) = true := by rw [hC]; simp
+  refine ⟨?_, ?_, ?_⟩
+  · intro e hg hs hl
+    have hp : e.protectedBy s.reg = true := protectedBy_of (guarded_onC hC hl) hs
+    obtain ⟨h1, _, h3, h4, _, h6, h7⟩ := (system_needs_system_ctx s id).2 e hg hp
+    refine ⟨h1, ?_, h3, h4, h6, h7⟩
+    intro v sn st so sl lvl
+    have hn : e.level.isNone = false := by cases h : e.level <;> simp_all
+    rw [step_cupdate_found hg, hn, updateOn_eq hg, hp]; simp
+  · intro v lvl hg hv
+    rcases ((system_needs_system_ctx s id).1 v hv hg).2 hr lvl with h | h <;> rw [h] <;> simp
+  · intro e v lvl hg hvs
+    rw [step_ccreate_found hg]
+    cases e.level.isSome with
+    | true => simp
+    | false =>
+      rw [createOn_eq, protectedBy_mkEnt_child hr v lvl e hvs]
+      cases ownerOk s v.owner <;> simp
 
 /-- … **and leave the entity unchanged**: a transaction in which such an attempt is reached
     commits nothing if its body aborts on errors; if the caller ignores the error of a refused
@@ -186,11 +274,16 @@ theorem sameButLinks_trans {e e1 e2 : Ent K N T} (h1 : SameButLinks e e1) (h2 : 
 theorem sameButLinks_isSystem {e e' : Ent K N T} (h : SameButLinks e e') : e'.isSystem = e.isSystem := by
   unfold SameButLinks at h; rw [h]; rfl
 
+theorem sameButLinks_protectedBy {e e' : Ent K N T} (h : SameButLinks e e') (reg : Reg) :
+    e'.protectedBy reg = e.protectedBy reg := by
+  unfold SameButLinks at h; rw [h]; rfl
+
 /-- **one successful operation from an ordinary context — on whatever entity, through whatever
-    store — leaves every system entity in place and unchanged** (flag, name, tags, timestamps,
-    owner, child data) -/
+    store — leaves every protected system entity in place and unchanged** (flag, name, tags,
+    timestamps, owner, child data); protected = system entity a registered constraint looks at:
+    all of them with the constraint on S, those with child data with the constraint on C only -/
 theorem ordinary_step_preserves_system (s : St K N T) (op : Op K N T) (ho : ordinaryOp op = true)
-    (hok : (step s op).err = none) (x : K) (e : Ent K N T) (hg : s.ents.get x = some e) (hs : e.isSystem = true) :
+    (hok : (step s op).err = none) (x : K) (e : Ent K N T) (hg : s.ents.get x = some e) (hp : e.protectedBy s.reg = true) :
     ∃ e', (step s op).st.ents.get x = some e' ∧ SameButLinks e e' := by
   have keep : ∀ (id : K) (e1 : Ent K N T), id ≠ x → ∃ e', (s.putEnt id e1).ents.get x = some e' ∧ SameButLinks e e' := by
     intro id e1 hne
@@ -224,7 +317,7 @@ theorem ordinary_step_preserves_system (s : St K N T) (op : Op K N T) (ho : ordi
           refine keep id _ ?_
           intro h; subst h
           rw [hg] at hgi; cases hgi
-          rw [hs] at h3; simp at h3
+          rw [protectedBy_mkEnt_child_of hp] at h3; simp at h3
       | none =>
         rw [step_ccreate_new hgi] at hok ⊢
         rw [(createOn_ok hok).1]
@@ -241,7 +334,7 @@ theorem ordinary_step_preserves_system (s : St K N T) (op : Op K N T) (ho : ordi
       refine keep id _ ?_
       intro h; subst h
       rw [hg] at hgi; cases hgi
-      rw [hs] at h2; simp at h2
+      rw [hp] at h2; simp at h2
   | cupdate sys id v sn st so sl lvl =>
     simp only [ordinaryOp, Bool.not_eq_true'] at ho
     subst ho
@@ -258,7 +351,7 @@ theorem ordinary_step_preserves_system (s : St K N T) (op : Op K N T) (ho : ordi
         refine keep id _ ?_
         intro h; subst h
         rw [hg] at hgi; cases hgi
-        rw [hs] at h2; simp at h2
+        rw [hp] at h2; simp at h2
   | delete sys id =>
     simp only [ordinaryOp, Bool.not_eq_true'] at ho
     subst ho
@@ -270,7 +363,7 @@ theorem ordinary_step_preserves_system (s : St K N T) (op : Op K N T) (ho : ordi
     have : id ≠ x := by
       intro h; subst h
       rw [hg] at hgi; cases hgi
-      rw [hs] at h2; simp at h2
+      rw [hp] at h2; simp at h2
     simp [this, hg]
   | cdelete sys id =>
     simp only [ordinaryOp, Bool.not_eq_true'] at ho
@@ -283,7 +376,7 @@ theorem ordinary_step_preserves_system (s : St K N T) (op : Op K N T) (ho : ordi
     have : id ≠ x := by
       intro h; subst h
       rw [hg] at hgi; cases hgi
-      rw [hs] at h2; simp at h2
+      rw [hp] at h2; simp at h2
     simp [this, hg]
   | ocreate id blank =>
     rw [step_ocreate]
@@ -303,7 +396,7 @@ theorem ordinary_step_preserves_system (s : St K N T) (op : Op K N T) (ho : ordi
         rw [if_neg ha]
         have hx : x ∉ refs s o := by
           intro hx
-          exact ha (any_refused_of_mem hx hg hs)
+          exact ha (any_refused_of_mem hx hg hp)
         refine ⟨unlinkEnt o e, ?_, rfl⟩
         rw [get_unlinkAll, Map.get_delAll]
         simp [hx, hg]
@@ -318,7 +411,7 @@ theorem ordinary_step_preserves_system (s : St K N T) (op : Op K N T) (ho : ordi
       rw [if_neg ha]
       have hx : x ∉ matching s q := by
         intro hx
-        exact ha (any_refused_of_mem hx hg hs)
+        exact ha (any_refused_of_mem hx hg hp)
       refine ⟨e, ?_, rfl⟩
       rw [Map.get_delAll]
       simp [hx, hg]
@@ -348,26 +441,133 @@ theorem ordinary_step_preserves_system (s : St K N T) (op : Op K N T) (ho : ordi
       · exact keep sid _ hx
   | read id => exact ⟨e, hg, rfl⟩
 
-/-- … and a cascade or a delete by query never removes a system entity on behalf of an ordinary
-    context, **not even in the partial state a refused batch leaves in the open transaction** -/
+/-- … and a cascade or a delete by query never removes a protected system entity on behalf of an
+    ordinary context, **not even in the partial state a refused batch leaves in the open transaction** -/
 theorem cascade_never_deletes_system (s : St K N T) (ids : List K) (x : K) (e : Ent K N T)
-    (hg : s.ents.get x = some e) (hs : e.isSystem = true) :
-    (delMany false s ids).1.ents.get x = some e := delMany_keeps_system s ids hg hs
+    (hg : s.ents.get x = some e) (hp : e.protectedBy s.reg = true) :
+    (delMany false s ids).1.ents.get x = some e := delMany_keeps_system s ids hg hp
+
+/-! the registration is part of the schema: no operation changes it -/
+
+theorem delMany_reg (sys : Bool) (s : St K N T) (ids : List K) : (delMany sys s ids).1.reg = s.reg := by
+  induction ids generalizing s with
+  | nil => rfl
+  | cons id ids ih =>
+    rw [delMany_cons]
+    split
+    · rfl
+    · rw [ih]; rfl
+
+theorem step_reg (s : St K N T) (op : Op K N T) : (step s op).st.reg = s.reg := by
+  have hc : ∀ (sys : Bool) (id : K) (v : Vals K N T) (lvl : Option N) (e0 : Ent K N T),
+      (createOn s sys id v lvl e0).st.reg = s.reg := by
+    intro sys id v lvl e0
+    rw [createOn_eq]
+    split
+    · rfl
+    · split <;> rfl
+  have hu : ∀ (sys : Bool) (id : K) (v : Vals K N T) (sn st so : Bool) (l : Option (Bool × N)) (e : Ent K N T),
+      s.ents.get id = some e → (updateOn s sys id v sn st so l e).st.reg = s.reg := by
+    intro sys id v sn st so l e hg
+    rw [updateOn_eq hg]
+    split
+    · rfl
+    · split <;> rfl
+  have hd : ∀ (sys : Bool) (id : K), (deleteOne s sys id).st.reg = s.reg := by
+    intro sys id
+    cases hg : s.ents.get id with
+    | none => rw [deleteOne_missing hg]
+    | some e => rw [deleteOne_found hg]; split <;> rfl
+  cases op with
+  | create sys id blank v =>
+    cases blank with
+    | true => rw [step_create_blank]
+    | false =>
+      cases hg : s.ents.get id with
+      | some e => rw [step_create_exists hg]
+      | none => rw [step_create_new hg]; exact hc ..
+  | ccreate sys id blank v lvl =>
+    cases blank with
+    | true => rw [step_ccreate_blank]
+    | false =>
+      cases hg : s.ents.get id with
+      | some e => rw [step_ccreate_found hg]; split; · rfl
+                  · exact hc ..
+      | none => rw [step_ccreate_new hg]; exact hc ..
+  | update sys id v sn st so =>
+    cases hg : s.ents.get id with
+    | none => rw [step_update_missing hg]
+    | some e => rw [step_update_found hg]; exact hu _ _ _ _ _ _ _ _ hg
+  | cupdate sys id v sn st so sl lvl =>
+    cases hg : s.ents.get id with
+    | none => rw [step_cupdate_missing hg]
+    | some e => rw [step_cupdate_found hg]; split; · rfl
+                · exact hu _ _ _ _ _ _ _ _ hg
+  | delete sys id => rw [step_delete]; exact hd ..
+  | cdelete sys id => rw [step_cdelete]; exact hd ..
+  | ocreate id blank => rw [step_ocreate]; split; · rfl
+                        · split <;> rfl
+  | odelete sys o =>
+    by_cases hm : o ∈ s.owners
+    · rw [step_odelete_found hm]; split
+      · exact delMany_reg ..
+      · rfl
+    · rw [step_odelete_missing hm]
+  | deleteWhere sys q =>
+    rw [step_deleteWhere]; split
+    · exact delMany_reg ..
+    · rfl
+  | link sid oid =>
+    cases hg : s.ents.get sid with
+    | none => rw [step_link_missing hg]
+    | some e => rw [step_link_found hg]; split <;> rfl
+  | unlink sid oid =>
+    cases hg : s.ents.get sid with
+    | none => rw [step_unlink_missing hg]
+    | some e => rw [step_unlink_found hg]; rfl
+  | read id => rfl
+
+theorem runOps_reg (k : Bool) (s : St K N T) (ops : List (Op K N T)) : (runOps k s ops).1.reg = s.reg := by
+  induction ops generalizing s with
+  | nil => rfl
+  | cons op ops ih =>
+    cases he : (step s op).err with
+    | none => rw [runOps_cons_ok he, ih, step_reg]
+    | some e =>
+      rw [runOps_cons_err he]
+      split
+      · rw [ih, step_reg]
+      · exact step_reg s op
+
+theorem commitTx_reg (s : St K N T) (tx : Bool × List (Op K N T)) : (commitTx s tx).reg = s.reg := by
+  unfold commitTx
+  simp only
+  split
+  · rfl
+  · exact runOps_reg ..
+
+theorem runHist_reg (s : St K N T) (txs : List (Bool × List (Op K N T))) : (runHist s txs).reg = s.reg := by
+  induction txs generalizing s with
+  | nil => rfl
+  | cons tx txs ih =>
+    unfold runHist at ih ⊢
+    rw [List.foldl_cons, ih, commitTx_reg]
 
 theorem ordinary_runOps_preserves_system (k : Bool) (s : St K N T) (ops : List (Op K N T))
     (ho : ∀ op ∈ ops, ordinaryOp op = true) (hok : (runOps k s ops).2 = false)
-    (x : K) (e e0 : Ent K N T) (hg : s.ents.get x = some e0) (hsim : SameButLinks e e0) (hs : e.isSystem = true) :
+    (x : K) (e e0 : Ent K N T) (hg : s.ents.get x = some e0) (hsim : SameButLinks e e0)
+    (hp : e.protectedBy s.reg = true) :
     ∃ e', (runOps k s ops).1.ents.get x = some e' ∧ SameButLinks e e' := by
   induction ops generalizing s e0 with
   | nil => exact ⟨e0, hg, hsim⟩
   | cons op ops ih =>
     have ho' : ∀ op' ∈ ops, ordinaryOp op' = true := fun o h => ho o (List.mem_cons_of_mem _ h)
-    have hs0 : e0.isSystem = true := by rw [sameButLinks_isSystem hsim]; exact hs
+    have hp0 : e0.protectedBy s.reg = true := by rw [sameButLinks_protectedBy hsim]; exact hp
     cases he : (step s op).err with
     | none =>
       rw [runOps_cons_ok he] at hok ⊢
-      obtain ⟨e1, hg1, hsim1⟩ := ordinary_step_preserves_system s op (ho op (List.mem_cons_self ..)) he x e0 hg hs0
-      exact ih _ ho' hok e1 hg1 (sameButLinks_trans hsim hsim1)
+      obtain ⟨e1, hg1, hsim1⟩ := ordinary_step_preserves_system s op (ho op (List.mem_cons_self ..)) he x e0 hg hp0
+      exact ih _ ho' hok e1 hg1 (sameButLinks_trans hsim hsim1) (by rw [step_reg]; exact hp)
     | some err =>
       rw [runOps_cons_err he] at hok ⊢
       by_cases hk : (k && err.ignorable) = true
@@ -375,35 +575,51 @@ theorem ordinary_runOps_preserves_system (k : Bool) (s : St K N T) (ops : List (
         simp only [Bool.and_eq_true] at hk
         have hst := step_err_state he hk.2
         rw [hst] at hok ⊢
-        exact ih s ho' hok e0 hg hsim
+        exact ih s ho' hok e0 hg hsim hp
       · rw [if_neg hk] at hok; simp at hok
 
 /-- **no transaction whose operations are all issued from ordinary contexts — in either mode, with
-    failing, ignored and indirect operations in any order — changes or deletes a system entity or
-    its flag**: after `Db.Update` every system entity is still there with the same flag, name, tags,
-    timestamps, owner and child data -/
+    failing, ignored and indirect operations in any order — changes or deletes a protected system
+    entity or its flag**: after `Db.Update` it is still there with the same flag, name, tags,
+    timestamps, owner and child data.  Under every registration: with the constraint on S that is
+    every system entity, with the constraint on C only every system entity that has child data. -/
 theorem ordinary_tx_preserves_system (s : St K N T) (k : Bool) (ops : List (Op K N T))
     (ho : ∀ op ∈ ops, ordinaryOp op = true) (x : K) (e : Ent K N T) (hg : s.ents.get x = some e)
-    (hs : e.isSystem = true) :
+    (hp : e.protectedBy s.reg = true) :
     ∃ e', (commitTx s (k, ops)).ents.get x = some e' ∧ SameButLinks e e' := by
   cases hf : (runOps k s ops).2 with
   | true => rw [commitTx_failed hf]; exact ⟨e, hg, rfl⟩
   | false =>
     rw [commitTx_ok hf]
-    exact ordinary_runOps_preserves_system k s ops ho hf x e e hg rfl hs
+    exact ordinary_runOps_preserves_system k s ops ho hf x e e hg rfl hp
 
 /-- the same for every history of such transactions -/
 theorem ordinary_history_preserves_system (txs : List (Bool × List (Op K N T))) (s : St K N T)
     (ho : ∀ tx ∈ txs, ∀ op ∈ tx.2, ordinaryOp op = true) (x : K) (e : Ent K N T) (hg : s.ents.get x = some e)
-    (hs : e.isSystem = true) :
+    (hp : e.protectedBy s.reg = true) :
     ∃ e', (runHist s txs).ents.get x = some e' ∧ SameButLinks e e' := by
   induction txs generalizing s e with
   | nil => exact ⟨e, hg, rfl⟩
   | cons tx txs ih =>
-    obtain ⟨e1, hg1, hsim1⟩ := ordinary_tx_preserves_system s tx.1 tx.2 (ho tx (List.mem_cons_self ..)) x e hg hs
-    have hs1 : e1.isSystem = true := by rw [sameButLinks_isSystem hsim1]; exact hs
-    obtain ⟨e2, hg2, hsim2⟩ := ih (commitTx s tx) (fun t ht => ho t (List.mem_cons_of_mem _ ht)) e1 hg1 hs1
+    obtain ⟨e1, hg1, hsim1⟩ := ordinary_tx_preserves_system s tx.1 tx.2 (ho tx (List.mem_cons_self ..)) x e hg hp
+    have hp1 : e1.protectedBy (commitTx s tx).reg = true := by
+      rw [commitTx_reg, sameButLinks_protectedBy hsim1]; exact hp
+    obtain ⟨e2, hg2, hsim2⟩ := ih (commitTx s tx) (fun t ht => ho t (List.mem_cons_of_mem _ ht)) e1 hg1 hp1
     exact ⟨e2, hg2, sameButLinks_trans hsim1 hsim2⟩
+
+/-- read off per registration: constraint on S — every system entity; constraint on C — every system
+    entity with child data -/
+theorem ordinary_history_preserves_system_parent_registration (txs : List (Bool × List (Op K N T))) (s : St K N T)
+    (hS : s.reg.onS = true) (ho : ∀ tx ∈ txs, ∀ op ∈ tx.2, ordinaryOp op = true) (x : K) (e : Ent K N T)
+    (hg : s.ents.get x = some e) (hs : e.isSystem = true) :
+    ∃ e', (runHist s txs).ents.get x = some e' ∧ SameButLinks e e' :=
+  ordinary_history_preserves_system txs s ho x e hg (protectedBy_of (guarded_onS hS e) hs)
+
+theorem ordinary_history_preserves_system_child_registration (txs : List (Bool × List (Op K N T))) (s : St K N T)
+    (hC : s.reg.onC = true) (ho : ∀ tx ∈ txs, ∀ op ∈ tx.2, ordinaryOp op = true) (x : K) (e : Ent K N T)
+    (hg : s.ents.get x = some e) (hs : e.isSystem = true) (hl : e.level.isSome = true) :
+    ∃ e', (runHist s txs).ents.get x = some e' ∧ SameButLinks e e' :=
+  ordinary_history_preserves_system txs s ho x e hg (protectedBy_of (guarded_onC hC hl) hs)
 
 /-! ## a system context may do everything -/
 
@@ -459,10 +675,10 @@ theorem system_ctx_allowed (s : St K N T) (id : K) :
     call that created it, a child-store `Create` over an existing parent adding its flag to the one
     on record; `runHistG_fst` shows it computes the same states).  Which calls can change the record
     of an existing entity at all: `flag_change_needs_system_child_create`. -/
-theorem flag_immutable (h : List (Bool × List (Op K N T))) (id : K) :
-    ((runHist (St.empty : St K N T) h).ents.get id).map Ent.isSystem =
-      (runHistG ((St.empty : St K N T), ([] : Map K Bool)) h).2.get id := by
-  have := runHistG_flagInv (flagInv_nil (K := K) (N := N) (T := T)) h id
+theorem flag_immutable (reg : Reg) (h : List (Bool × List (Op K N T))) (id : K) :
+    ((runHist (St.empty reg : St K N T) h).ents.get id).map Ent.isSystem =
+      (runHistG ((St.empty reg : St K N T), ([] : Map K Bool)) h).2.get id := by
+  have := runHistG_flagInv (flagInv_nil (K := K) (N := N) (T := T) reg) h id
   rw [runHistG_fst] at this
   exact this
 
@@ -471,7 +687,8 @@ theorem flag_immutable (h : List (Bool × List (Op K N T))) (id : K) :
     context** — it re-runs `CreateBaseValues` on the parent's bucket and so turns an ordinary
     entity into a system one.  Nothing turns a system entity back, and nothing an ordinary context
     does changes any flag. -/
-theorem flag_change_needs_system_child_create (s : St K N T) (op : Op K N T) (hok : (step s op).err = none)
+theorem flag_change_needs_system_child_create (s : St K N T) (hreg : (s.reg.onS || s.reg.onC) = true)
+    (op : Op K N T) (hok : (step s op).err = none)
     (x : K) (e e' : Ent K N T) (hg : s.ents.get x = some e) (hg' : (step s op).st.ents.get x = some e') :
     e'.isSystem = e.isSystem ∨
       (∃ v lvl, op = .ccreate true x false v lvl ∧ v.flag = true ∧ e.isSystem = false ∧ e'.isSystem = true) := by
@@ -524,7 +741,7 @@ theorem flag_change_needs_system_child_create (s : St K N T) (op : Op K N T) (ho
               | true => left; simp
               | false =>
                 right
-                rw [hf] at h3
+                rw [protectedBy_mkEnt_child hreg v lvl e (by rw [hf]; rfl)] at h3
                 have hsys : sys = true := by cases sys <;> simp_all
                 subst hsys
                 exact ⟨v, lvl, rfl, hf, rfl, by simp⟩
@@ -720,17 +937,19 @@ theorem ordinary_unaffected (s : St K N T) (op : Op K N T) (h : Ordinary s op) (
   have hcreate : ∀ (id : K) (v : Vals K N T) (lvl : Option N) (e0 : Ent K N T), v.flag = false → e0.isSystem = false →
       createOn s c1 id v lvl e0 = createOn s c2 id v lvl e0 := by
     intro id v lvl e0 hv he
-    rw [createOn_eq, createOn_eq, hv, he]; simp
+    have hp : (mkEnt v lvl e0).protectedBy s.reg = false :=
+      protectedBy_of_not_system _ (by rw [mkEnt_isSystem, hv, he]; rfl)
+    rw [createOn_eq, createOn_eq, hp]; simp
   have hupdate : ∀ (id : K) (v : Vals K N T) (sn st so : Bool) (l : Option (Bool × N)) (e : Ent K N T),
       s.ents.get id = some e → e.isSystem = false →
       updateOn s c1 id v sn st so l e = updateOn s c2 id v sn st so l e := by
     intro id v sn st so l e hg he
-    rw [updateOn_eq hg, updateOn_eq hg, he]; simp
+    rw [updateOn_eq hg, updateOn_eq hg, protectedBy_of_not_system _ he]; simp
   have hdelete : ∀ id : K, (∀ e, s.ents.get id = some e → e.isSystem = false) → deleteOne s c1 id = deleteOne s c2 id := by
     intro id hh
     cases hg : s.ents.get id with
     | none => rw [deleteOne_missing hg, deleteOne_missing hg]
-    | some e => rw [deleteOne_found hg, deleteOne_found hg, hh e hg]; simp
+    | some e => rw [deleteOne_found hg, deleteOne_found hg, protectedBy_of_not_system _ (hh e hg)]; simp
   cases op with
   | create sys id blank v =>
     simp only [Ordinary] at h
@@ -835,8 +1054,8 @@ theorem commitTx_refines (s : St K N T) (hw : WF s) (tx : Bool × List (Op K N T
 /-- **for every history the committed state of the model is the state the specification
     prescribes** (entities, their system flag, names, tags, timestamps, owners, child data; the
     owners) -/
-theorem model_refines_spec (h : List (Bool × List (Op K N T))) :
-    abs (runHist (St.empty : St K N T) h) = srunHist (SSt.empty : SSt K N T) h := by
+theorem model_refines_spec (reg : Reg) (h : List (Bool × List (Op K N T))) :
+    abs (runHist (St.empty reg : St K N T) h) = srunHist (SSt.empty reg : SSt K N T) h := by
   have : ∀ (s : St K N T), WF s → abs (runHist s h) = srunHist (abs s) h := by
     induction h with
     | nil => intro s _; rfl
@@ -847,13 +1066,17 @@ theorem model_refines_spec (h : List (Bool × List (Op K N T))) :
       have := ih (commitTx s tx) (commitTx_refines s hw tx).2
       unfold runHist srunHist at this
       rw [this, (commitTx_refines s hw tx).1]
-  exact this St.empty (by intro p hp; cases hp)
+  exact this (St.empty reg) (by intro p hp; cases hp)
 
 end
 
 /-! ## non-vacuity (ids, names, timestamps = Nat) -/
 
 instance : KeyOrd Nat := ⟨fun a b => decide (a ≤ b)⟩
+
+/-- the constraint registered on the parent store / on the child store only -/
+def regS : Reg := { onS := true, onC := false }
+def regC : Reg := { onS := false, onC := true }
 
 def vals (flag migrate : Bool) (name : Nat) (owner : Option Nat := none) : Vals Nat Nat Nat :=
   { flag := flag, migrate := migrate, cAt := 1000, uAt := 2000, tags := some name, name := name, owner := owner }
@@ -869,55 +1092,91 @@ def demoHist : List (Bool × List (Op Nat Nat Nat)) :=
            .delete false 1]),
    (false, [.update true 1 (vals false true 12) true true false])]
 
-example : (runHist St.empty demoHist).ents.get 1 =
+example : (runHist (St.empty regS) demoHist).ents.get 1 =
     some { flag := some true, name := 12, tags := some 12, created := .given 1000, updated := .now,
            owner := some 7, level := none, peers := [] } := by decide
-example : (runHist St.empty demoHist).ents.get 2 =
+example : (runHist (St.empty regS) demoHist).ents.get 2 =
     some { flag := none, name := 21, tags := some 20, created := .now, updated := .now, owner := some 7,
            level := none, peers := [] } := by decide
-example : (runHistG (St.empty, []) demoHist).2.get 1 = some true ∧ (runHistG (St.empty, []) demoHist).2.get 2 = some false := by
+example : (runHistG ((St.empty regS), []) demoHist).2.get 1 = some true ∧ (runHistG ((St.empty regS), []) demoHist).2.get 2 = some false := by
   decide
-example : (step (runHist St.empty demoHist) (.delete false 1)).err = some .sysDelete := by decide
-example : (step (runHist St.empty demoHist) (.create false 3 false (vals true false 30))).err = some .sysCreate := by decide
+example : (step (runHist (St.empty regS) demoHist) (.delete false 1)).err = some .sysDelete := by decide
+example : (step (runHist (St.empty regS) demoHist) (.create false 3 false (vals true false 30))).err = some .sysCreate := by decide
 
 /-- the indirect paths on the same state: deleting owner 7 from an ordinary context is refused
     because system entity 1 refers to it (it is the first referrer in id order, so nothing has been
     deleted when the cascade stops); `DeleteWhere(true)`, a child-store create over 1, a
     child-store delete: refused; a keep-going ordinary transaction of such attempts commits nothing;
     from a system context the cascade goes through and removes both referrers -/
-example : (step (runHist St.empty demoHist) (.odelete false 7)).err = some .viaSysDelete := by decide
-example : (step (runHist St.empty demoHist) (.deleteWhere false .all)).err = some .viaSysDelete := by decide
-example : (step (runHist St.empty demoHist) (.ccreate false 1 false (vals false false 5) 9)).err = some .sysCreate := by decide
-example : (step (runHist St.empty demoHist) (.cdelete false 1)).err = some .sysDelete := by decide
-example : (commitTx (runHist St.empty demoHist) (true, [.odelete false 7, .deleteWhere false .all,
-    .ccreate false 1 false (vals false false 5) 9])).ents.get 1 = (runHist St.empty demoHist).ents.get 1 := by decide
-example : ((step (runHist St.empty demoHist) (.odelete true 7)).st.ents.get 1,
-    (step (runHist St.empty demoHist) (.odelete true 7)).st.ents.get 2,
-    (step (runHist St.empty demoHist) (.odelete true 7)).st.owners) = (none, none, []) := by decide
+example : (step (runHist (St.empty regS) demoHist) (.odelete false 7)).err = some .viaSysDelete := by decide
+example : (step (runHist (St.empty regS) demoHist) (.deleteWhere false .all)).err = some .viaSysDelete := by decide
+example : (step (runHist (St.empty regS) demoHist) (.ccreate false 1 false (vals false false 5) 9)).err = some .sysCreate := by decide
+example : (step (runHist (St.empty regS) demoHist) (.cdelete false 1)).err = some .sysDelete := by decide
+example : (commitTx (runHist (St.empty regS) demoHist) (true, [.odelete false 7, .deleteWhere false .all,
+    .ccreate false 1 false (vals false false 5) 9])).ents.get 1 = (runHist (St.empty regS) demoHist).ents.get 1 := by decide
+example : ((step (runHist (St.empty regS) demoHist) (.odelete true 7)).st.ents.get 1,
+    (step (runHist (St.empty regS) demoHist) (.odelete true 7)).st.ents.get 2,
+    (step (runHist (St.empty regS) demoHist) (.odelete true 7)).st.owners) = (none, none, []) := by decide
 /-- the promotion `flag_change_needs_system_child_create` describes: a child-store create carrying
     the flag over ordinary entity 2, from a system context, makes 2 a system entity; from an
     ordinary context it is refused -/
-example : ((step (runHist St.empty demoHist) (.ccreate true 2 false (vals true false 5 (some 7)) 9)).st.ents.get 2).map Ent.isSystem
+example : ((step (runHist (St.empty regS) demoHist) (.ccreate true 2 false (vals true false 5 (some 7)) 9)).st.ents.get 2).map Ent.isSystem
     = some true := by decide
-example : (step (runHist St.empty demoHist) (.ccreate false 2 false (vals true false 5 (some 7)) 9)).err = some .sysCreate := by
+example : (step (runHist (St.empty regS) demoHist) (.ccreate false 2 false (vals true false 5 (some 7)) 9)).err = some .sysCreate := by
   decide
 /-- and the cascade stops being safe the moment the nested delete runs under another context than
     the caller's: with the referrers deleted from a system context the system entity is gone -/
-example : ((delMany true (runHist St.empty demoHist) (refs (runHist St.empty demoHist) 7)).1.ents.get 1) = none := by decide
-example : Ordinary (runHist St.empty demoHist) (.update false 2 (vals true true 5) true true true) := by
+example : ((delMany true (runHist (St.empty regS) demoHist) (refs (runHist (St.empty regS) demoHist) 7)).1.ents.get 1) = none := by decide
+example : Ordinary (runHist (St.empty regS) demoHist) (.update false 2 (vals true true 5) true true true) := by
   intro e he
-  have : (runHist St.empty demoHist).ents.get 2 =
+  have : (runHist (St.empty regS) demoHist).ents.get 2 =
       some { flag := none, name := 21, tags := some 20, created := .now, updated := .now, owner := some 7,
              level := none, peers := [] } := by decide
   rw [this] at he; cases he; rfl
 
+/-! ### the constraint registered on the child store only -/
+
+/-- a system context creates system entity 1 THROUGH THE CHILD STORE (child data) and system entity 2
+    through S (no child data) -/
+def demoHistC : List (Bool × List (Op Nat Nat Nat)) :=
+  [(false, [.ocreate 7 false, .ccreate true 1 false (vals true false 10 (some 7)) 5,
+            .create true 2 false (vals true false 20)])]
+
+/-- entity 1 has child data: update and delete through EITHER store, the cascade of its owner and a
+    delete by query are refused from an ordinary context … -/
+example : (step (runHist (St.empty regC) demoHistC) (.delete false 1)).err = some .sysDelete := by decide
+example : (step (runHist (St.empty regC) demoHistC) (.cdelete false 1)).err = some .sysDelete := by decide
+example : (step (runHist (St.empty regC) demoHistC) (.update false 1 (vals false false 11) true true false)).err
+    = some .sysUpdate := by decide
+example : (step (runHist (St.empty regC) demoHistC) (.cupdate false 1 (vals false false 11) true true false true 6)).err
+    = some .sysUpdate := by decide
+example : (step (runHist (St.empty regC) demoHistC) (.odelete false 7)).err = some .viaSysDelete := by decide
+example : (step (runHist (St.empty regC) demoHistC) (.deleteWhere false .all)).err = some .viaSysDelete := by decide
+/-- … **entity 2 has none: a constraint on the child store never sees operations on it through S**
+    (they succeed from an ordinary context: the property cannot be claimed for it — the hypothesis
+    `e.level.isSome` of `system_needs_system_ctx_child_registration` is necessary), but extending it
+    through the child store is refused -/
+example : (step (runHist (St.empty regC) demoHistC) (.delete false 2)).err = none := by decide
+example : (step (runHist (St.empty regC) demoHistC) (.update false 2 (vals false false 21) true true false)).err = none := by
+  decide
+example : (step (runHist (St.empty regC) demoHistC) (.create false 3 false (vals true false 30))).err = none := by decide
+example : (step (runHist (St.empty regC) demoHistC) (.ccreate false 2 false (vals false false 21) 9)).err = some .sysCreate := by
+  decide
+example : (step (runHist (St.empty regC) demoHistC) (.ccreate false 3 false (vals true false 30) 9)).err = some .sysCreate := by
+  decide
+/-- with the constraint on S the same operations on entity 2 are refused -/
+example : (step (runHist (St.empty regS) demoHistC) (.delete false 2)).err = some .sysDelete := by decide
+
 end StorageModel.Properties.C16
 
 #print axioms StorageModel.Properties.C16.system_needs_system_ctx
+#print axioms StorageModel.Properties.C16.system_needs_system_ctx_parent_registration
+#print axioms StorageModel.Properties.C16.system_needs_system_ctx_child_registration
 #print axioms StorageModel.Properties.C16.system_needs_system_ctx_tx
 #print axioms StorageModel.Properties.C16.ordinary_step_preserves_system
 #print axioms StorageModel.Properties.C16.ordinary_tx_preserves_system
 #print axioms StorageModel.Properties.C16.ordinary_history_preserves_system
+#print axioms StorageModel.Properties.C16.ordinary_history_preserves_system_child_registration
 #print axioms StorageModel.Properties.C16.cascade_never_deletes_system
 #print axioms StorageModel.Properties.C16.system_ctx_allowed
 #print axioms StorageModel.Properties.C16.flag_immutable
